@@ -217,6 +217,10 @@ def signal_scenario(ctx, seed):
         st = St("s%d" % i, ["o/x%d.o" % i], ins=["c%d.c" % i], deps=deps, depfile="o/x%d.o.d" % i if deps != "none" else "")
         st["early"] = rng.random() < 0.6
         st["vtool_args"] = ["--sleep-after", str(rng.choice((150, 300, 600))), "--announce", "run%d.flag" % i]
+        if rng.random() < 0.5:
+            # the work is done by a child of the shell ninja spawned (a wrapper script, a compiler driver), not by a process
+            # the shell exec()ed in its own place: stopping the command means stopping its whole process group
+            st["shell_suffix"] = " && true"
         sc["stmts"].append(st)
     sc["stmts"].append(St("link", ["prog"], ins=[s["outs"][0] for s in sc["stmts"]]))
     t = e2e.Tree(sc)
@@ -230,6 +234,9 @@ def signal_scenario(ctx, seed):
             t.write("h.h", "// h\n// edited\n")
             for i in range(n):
                 t.rm("run%d.flag" % i)
+                if rng.random() < 0.35:
+                    t.rm("o/x%d.o" % i)         # an output that is missing when the interrupted build starts
+                    ctx.count("signal_runs_output_deleted_before")
             t.events(clear=True)
         pre = t.snapshot()
         p = t.popen(["-j%d" % rng.choice((1, 2, 4))])
